@@ -356,8 +356,7 @@ fn judge(events: &[Event], nthreads: usize, initial: bool, final_read: bool) -> 
             if linearizable(&all, initial) {
                 return None;
             }
-            let only_writes = all.iter().filter(|o| !matches!(o.g, G::Read(_))).count();
-            failed = Some((format!("kind=global-history-not-linearizable;global_writes={}", only_writes.min(9)), format!("no linearization of [{}] from initial={initial}", all.iter().map(|o| o.what.clone()).collect::<Vec<_>>().join(", "))));
+            failed = Some(("kind=global-history-not-linearizable".to_string(), format!("no linearization of [{}] from initial={initial}", all.iter().map(|o| o.what.clone()).collect::<Vec<_>>().join(", "))));
         }
         if vi == 0 {
             first_reason = failed; // the variant that describes today's code
